@@ -278,7 +278,7 @@ theorem ssMinusStreams_res {w : World} (hw : Wf w) (p : Nat) (q : Option Nat) : 
 
 /-! ### the in-place mutators keep the world well-formed -/
 
-theorem setStrHdr_wf {w : World} (hw : Wf w) (p : Nat) {s : Slice} (hs : s.arr < w.arrs.length) :
+theorem setStrHdr_wf {w : World} (hw : Wf w) (p : Nat) {s : Slice} (hs : sliceOk w s) :
     Wf (w.setStrHdr p s) := by
   refine ⟨hw.arr0, ?_, hw.sets, ?_⟩
   · intro t ht
@@ -320,34 +320,43 @@ theorem setSet_wf {w w' : World} (hw : Wf w) {p : Nat} {k : Int} {v : Val} (hv :
   · cases h
     exact ⟨writeMap_wf hw _ (mapOk_insert (mapAt_ok hw _) k hv), rfl, rfl, rfl⟩
 
-theorem appendSlice_res {w : World} (hw : Wf w) {s : Slice} (hs : s.arr < w.arrs.length) (l : List Int) :
-    Wf (w.appendSlice s l).1 ∧ (w.appendSlice s l).2.arr < (w.appendSlice s l).1.arrs.length
-      ∧ (w.appendSlice s l).1.strs = w.strs ∧ (w.appendSlice s l).1.sets = w.sets := by
+theorem appendSlice_res {w : World} (hw : Wf w) {s : Slice} (hs : sliceOk w s) (l : List Int) :
+    Wf (w.appendSlice s l).1 ∧ sliceOk (w.appendSlice s l).1 (w.appendSlice s l).2
+      ∧ (w.appendSlice s l).1.strs = w.strs ∧ (w.appendSlice s l).1.sets = w.sets
+      ∧ (∀ b, b < w.arrs.length → (w.arrAt b).length ≤ ((w.appendSlice s l).1.arrAt b).length) := by
   unfold appendSlice
   split
-  · exact ⟨writeArr_wf hw _ _ _, by simpa [writeArr] using hs, rfl, rfl⟩
+  · rename_i hfit
+    exact ⟨writeArr_wf hw _ _ _,
+      sliceOk_writeArr _ _ _ (s := { s with len := s.len + l.length }) ⟨hs.1, hs.2.1, hfit⟩, rfl, rfl,
+      fun b _ => writeArr_arrAt_len w _ _ _ b⟩
   · have h := allocArr_good hw (w.sliceContent s ++ l)
-    exact ⟨h.1.wf, h.2, rfl, rfl⟩
+    exact ⟨h.1.wf, h.2, rfl, rfl, fun b hb => by rw [arrAt_le h.1.le hb]; exact Nat.le_refl _⟩
 
 /-- interface{} `Remove(i)`: the world stays well-formed, the receiver cell stays valid, no stream cell
-    is created or dropped, no set is touched -/
-theorem strRemoveI_wf {w : World} (hw : Wf w) {p : Nat} (hp : p < w.strs.length) (i : Int) :
+    is created or dropped, no set is touched, no array is dropped or shortened -/
+theorem strRemoveI_wf {w : World} (hw : Wf w) {p : Nat} (_hp : p < w.strs.length) (i : Int) :
     Wf (w.strRemoveI p i).1 ∧ (w.strRemoveI p i).2 = p
       ∧ (w.strRemoveI p i).1.strs.length = w.strs.length ∧ (w.strRemoveI p i).1.sets = w.sets
-      ∧ w.arrs.length ≤ (w.strRemoveI p i).1.arrs.length := by
+      ∧ w.arrs.length ≤ (w.strRemoveI p i).1.arrs.length
+      ∧ (∀ b, b < w.arrs.length → (w.arrAt b).length ≤ ((w.strRemoveI p i).1.arrAt b).length) := by
   unfold strRemoveI
   simp only
   split
-  · have h := appendSlice_res hw (s := { w.strHdr p with len := i.toNat }) (strHdr_arr_lt hw p)
+  · rename_i hr
+    have hso := strHdr_ok hw p
+    have h := appendSlice_res hw (s := { w.strHdr p with len := i.toNat })
+      ⟨hso.1, hso.2.1, by have := hso.2.2; show i.toNat ≤ (w.strHdr p).cap; omega⟩
       ((w.sliceContent (w.strHdr p)).drop (i.toNat + 1))
-    refine ⟨setStrHdr_wf h.1 p h.2.1, rfl, ?_, ?_, ?_⟩
+    refine ⟨setStrHdr_wf h.1 p h.2.1, rfl, ?_, ?_, ?_, ?_⟩
     · simp [setStrHdr, h.2.2.1]
-    · simp [setStrHdr, h.2.2.2]
+    · simp [setStrHdr, h.2.2.2.1]
     · simp only [setStrHdr]
       unfold appendSlice; split
       · simp [writeArr]
       · simp [allocArr]
-  · exact ⟨hw, rfl, rfl, rfl, Nat.le_refl _⟩
+    · exact h.2.2.2.2
+  · exact ⟨hw, rfl, rfl, rfl, Nat.le_refl _, fun _ _ => Nat.le_refl _⟩
 
 /-- list core of the in-place `append(s[:i], s[i+1:]...)`: overwriting the slots from `off+i` on with the
     elements behind position `i` and cutting the window to `len-1` leaves `eraseIdx i` of the old window -/
